@@ -65,10 +65,15 @@ def render_expected(cls, pols):
 
 
 def decision_word(rec):
-    msg = rec.getMessage()
-    if 'was allowed' in msg:
+    """does the decision-log record say allowed or rejected?  Judged on the message template (the inquiry's own text
+    is an argument), any wording containing allow… xor reject… / den… / refus…"""
+    msg = rec.msg if isinstance(rec.msg, str) else rec.getMessage()
+    low = msg.lower()
+    yes = 'allow' in low
+    no = any(w in low for w in ('reject', 'denied', 'deny', 'refus', 'forbid'))
+    if yes and not no:
         return True
-    if 'was rejected' in msg:
+    if no and not yes:
         return False
     return None
 
